@@ -1,6 +1,7 @@
 /-
   C13 — Regions, bounds and point-in-region tests are tight and consistent.
 -/
+import VerdeModel.Gen.Region
 import VerdeModel.Lemmas.MinMax
 import VerdeModel.Lemmas.Coords
 import VerdeModel.Gen.Coords
@@ -289,5 +290,43 @@ theorem src_check_region_accepts_iff (w e s n : Rat) : Gen.checkRegion4 w e s n 
   · by_cases h2 : s > n
     · simp [h1, h2]
     · simp [h1, h2]; exact ⟨not_lt.mp h1, not_lt.mp h2⟩
+
+/-! ### Bridges: `maxabs`, `scatter_points`, `project_region` regenerated from source -/
+
+/-- **Bridges** (pinned translations, regenerated on every run and withheld as soon as a statement changes): `maxabs`, `scatter_points` (the
+    pairs (W, E), (S, N) of the reshaped region, one uniform draw per pair in that order, constant extra coordinates) and `project_region` (the
+    101×101 grid of the region, projected node by node, then min/max in the order W, E, S, N) are the model's definitions. -/
+theorem gen_maxabs_eq_model (arrays : List (List Rat)) : Gen.maxabs arrays = maxabs arrays := rfl
+
+theorem gen_scatter_points_eq_model (region : List Rat) (ue un extra : List Rat) :
+    Gen.scatterPoints region [ue, un] extra = scatterPoints region ue un extra := by
+  unfold Gen.scatterPoints scatterPoints scatterAxis
+  cases checkRegion region with
+  | error e => rfl
+  | ok r =>
+    simp only [bind, Except.bind, pure, Except.pure, List.zip_cons_cons, List.zip_nil_right, List.map_cons, List.map_nil, List.headD_cons,
+      List.map_map, List.cons_append, List.nil_append]
+    rfl
+
+/-- The four optional bounds as a region (absent for an empty set of points). -/
+def boundsToRegion : Option Rat × Option Rat × Option Rat × Option Rat → Option Region
+  | (some w, some e, some s, some n) => some ⟨w, e, s, n⟩
+  | _ => none
+
+theorem gen_project_region_eq_model (region : List Rat) (p : Proj) :
+    projectRegion region p = (Gen.projectRegion region p.apply).map boundsToRegion := by
+  unfold Gen.projectRegion projectRegion
+  simp only [bind, Except.bind]
+  cases gridLines region ⟨some (101, 101), none, .spacing, false⟩ with
+  | error e => rfl
+  | ok l =>
+    obtain ⟨east, north⟩ := l
+    simp only [pure, Except.pure, Except.map, getRegion, List.map_flatMap, List.map_map]
+    congr 1
+    simp only [Function.comp_def]
+    cases listMin (List.flatMap (fun y => List.map (fun x => (p.apply (x, y)).1) east) north) <;>
+    cases listMax (List.flatMap (fun y => List.map (fun x => (p.apply (x, y)).1) east) north) <;>
+    cases listMin (List.flatMap (fun y => List.map (fun x => (p.apply (x, y)).2) east) north) <;>
+    cases listMax (List.flatMap (fun y => List.map (fun x => (p.apply (x, y)).2) east) north) <;> rfl
 
 end Verde.C13
